@@ -114,10 +114,11 @@ impl Monitor for C02 {
             ("continuations_run", tier.pick(1_500, 30_000)),
             ("second_crash_images_recovered", tier.pick(1_000, 20_000)),
             ("recovered_partial_truncate_or_delete", 0),
+            ("real_sigkill_images_recovered", tier.pick(200, 5_000)),
         ]
     }
     fn rule(&self) -> String {
-        "case = one generated history (6..36 calls, Always(Flush|FlushAndFsync)) traced at the syscall boundary; evaluation = one recovery (open + full read-back) of a directory image rebuilt at a crash point: after every file-system effect, and inside every write at frame-relative byte cuts (thorough: every byte of writes <= 4 KiB); plus second-level crash points inside the recovery's own effects, plus continuation histories (lock-step with the model + 2 restarts) on sampled recovered logs; distinct_nontrivial = distinct (case, effect index, byte cut) crash points that are torn writes or whose image holds >= 2 WAL files".into()
+        "case = one generated history (6..36 calls, Always(Flush|FlushAndFsync)) traced at the syscall boundary; evaluation = one recovery (open + full read-back) of a directory image rebuilt at a crash point: after every file-system effect, and inside every write at frame-relative byte cuts (thorough: every byte of writes <= 4 KiB); plus second-level crash points inside the recovery's own effects, plus continuation histories (lock-step with the model + 2 restarts) on sampled recovered logs; plus, on a third of the cases, the same history replayed in a forked child that is really SIGKILLed at a random moment (its directory judged by the same oracle: cross-validation of the trace-based image model); distinct_nontrivial = distinct (case, effect index, byte cut) crash points that are torn writes or whose image holds >= 2 WAL files".into()
     }
     fn assumptions(&self) -> Vec<String> {
         vec![
@@ -163,6 +164,94 @@ impl Monitor for C02 {
             acc.count("histories_dev_profile_build");
         }
         explore(ctx, case, &run, &mut rng, acc);
+        // cross-validation of the trace-based crash model against REAL process deaths
+        if case % 3 == 0 {
+            kill_leg(ctx, case, &run, &mut rng, acc);
+        }
+    }
+}
+
+/// Re-run the same history in a forked child (no tracing) and SIGKILL it at a random
+/// moment; the directory it leaves behind IS a process-crash image (the page cache is
+/// coherent).  The child reports every completed call through a pipe, so the parent knows
+/// which call was in flight.  The recovered state must satisfy the same oracle as the
+/// reconstructed images.
+fn kill_leg(ctx: &Ctx, case: u64, run: &LiveRun, rng: &mut Rng, acc: &mut Acc) {
+    use std::io::Read;
+    use std::os::unix::io::FromRawFd;
+    if run.profile == Profile::Align {
+        return; // generated with cursor feedback; the child replays the recorded op list anyway
+    }
+    let dir = ctx.scratch.sub("c02-kill");
+    for attempt in 0..3u64 {
+        crate::util::clear_dir(&dir);
+        let mut fds = [0i32; 2];
+        if unsafe { libc::pipe(fds.as_mut_ptr()) } != 0 {
+            return;
+        }
+        let pid = unsafe { libc::fork() };
+        if pid < 0 {
+            return;
+        }
+        if pid == 0 {
+            // child: replay the recorded operations, report each completed call
+            unsafe { libc::close(fds[0]) };
+            crate::shim::pause(true);
+            let mut sut = match crate::ops::Sut::open(&dir, run.policy, run.key, false) {
+                Ok(s) => s,
+                Err(_) => unsafe { libc::_exit(3) },
+            };
+            let one = [0xFFu8; 1];
+            unsafe { libc::write(fds[1], one.as_ptr() as *const libc::c_void, 1) };
+            for (k, op) in run.ops.iter().enumerate() {
+                let _ = sut.apply(k, op);
+                let b = (k as u32).to_le_bytes();
+                unsafe { libc::write(fds[1], b.as_ptr() as *const libc::c_void, 4) };
+            }
+            // linger so that the parent always kills a live process
+            std::thread::sleep(std::time::Duration::from_millis(200));
+            unsafe { libc::_exit(0) };
+        }
+        unsafe { libc::close(fds[1]) };
+        // kill after a random delay (the history takes a few ms)
+        let delay_us = rng.range(0, 400 * (1 + run.ops.len() as u64));
+        std::thread::sleep(std::time::Duration::from_micros(delay_us));
+        unsafe {
+            libc::kill(pid, libc::SIGKILL);
+            let mut st = 0;
+            libc::waitpid(pid, &mut st, 0);
+        }
+        let mut reported = Vec::new();
+        let mut f = unsafe { std::fs::File::from_raw_fd(fds[0]) };
+        let _ = f.read_to_end(&mut reported);
+        if reported.is_empty() {
+            acc.count("real_kills_before_the_first_open_completed");
+            // the initial open itself was in flight: must recover to the empty log
+        }
+        let completed = if reported.len() > 1 { (reported.len() - 1) / 4 } else { 0 };
+        // calls 0..completed returned; call `completed` may be in flight (or not started)
+        let lo = completed;
+        let hi = (completed + 1).min(run.ops.len());
+        let (r, sut, _evs) = recover(&dir, run.policy, run.key);
+        if let Some(mut s) = sut {
+            s.trace = false;
+            drop(s);
+        }
+        acc.eval();
+        acc.count("real_sigkill_images_recovered");
+        let opkind = if completed < run.ops.len() { run.ops[completed].kind() } else { "after-last-call" };
+        let j = Judge {
+            run,
+            case,
+            lo,
+            hi,
+            opkind,
+            evkind: "real-SIGKILL".into(),
+            point: json!({"real_process_killed_after_us": delay_us, "calls_completed_before_the_kill": completed, "attempt": attempt}),
+        };
+        if j.judge(&r, acc, "real-kill/").is_none() {
+            return;
+        }
     }
 }
 
